@@ -119,6 +119,24 @@ Theorem session_usable_afterwards : forall pf stypes dst cfg lines cfg' evs,
 Proof. exact session_then_top_lemma. Qed.
 Print Assumptions session_usable_afterwards.
 
+(* -- annotated source listing (internal/report/source.go:716 functions, :663 generateFile) --
+   absent overflow, merging a line into the preceding function extends it by fewer than 20 lines, so the
+   per-line loop of generateFile stays proportional to the number of profiled lines ... *)
+Theorem weblist_merge_extends_by_less_than_limit : forall e l,
+  min_i64 <= e <= max_i64 -> min_i64 <= l <= max_i64 -> e <= l ->
+  l - e < 9223372036854775808 -> merges e l = true -> l - e < merge_limit.
+Proof. exact merges_near_lemma. Qed.
+Print Assumptions weblist_merge_extends_by_less_than_limit.
+
+(* ... F25: with two lines of one function 2^63 or more apart the subtraction wraps, the lines are
+   merged and generateFile visits ~2^63 line numbers: pprof hangs (witness: lines -20 and MaxInt64-10) *)
+Theorem weblist_never_hangs_refuted :
+  in_F25 [-20; 9223372036854775797] = true /\
+  merge_lines None [-20; 9223372036854775797] = [(-20, 9223372036854775798)] /\
+  9223372036854775807 < visits (-20, 9223372036854775798).
+Proof. vm_compute. repeat split; reflexivity. Qed.
+Print Assumptions weblist_never_hangs_refuted.
+
 (* -- non-vacuity and the necessity of the hypotheses -- *)
 Definition su (v : Z) (f t : string) : string := snd (scale unit_types v f t).
 Definition no_pf (s : string) : option term := None.
@@ -129,6 +147,11 @@ Example tag_range_examples :
   parse_tag_filter_range su "12kb:64mb" = Ok (TFRange 12 64 "kB") /\
   parse_tag_filter_range su "4mb:" = Ok (TFGe 4 "MB") /\
   parse_tag_filter_range su "1kb:2s" = Ok TFNil.
+Proof. vm_compute. repeat split; reflexivity. Qed.
+
+Example weblist_merge_examples :
+  merge_lines None [10; 12; 40; 41] = [(10, 13); (40, 42)] /\ in_F25 [10; 12; 40; 41] = false /\
+  in_F25 [-1; 9223372036854775807] = false.
 Proof. vm_compute. repeat split; reflexivity. Qed.
 
 Example locate_example :
